@@ -55,7 +55,7 @@ def regions(cap, ptext):
     return owners, entries, func_labels, called, names
 
 
-def check_program(drv, chk, name, src, opts, pool, envs, steps, failures, stats, known_ids):
+def check_program(drv, chk, name, src, opts, pool, envs, steps, failures, stats, known_ids, live_called=None):
     try:
         res, cap = whole.compile_captured(src, opts)
     except Exception as e:
@@ -80,7 +80,9 @@ def check_program(drv, chk, name, src, opts, pool, envs, steps, failures, stats,
             nxt = last + 1
             if nxt < len(owners) and owners[nxt] != main_id:
                 lbl = cap.lines[nxt]["op"][:-1] if cap.lines[nxt]["op"].endswith(":") else None
-                if lbl in called:
+                # the known finding concerns functions the source really calls; a function that only compile-time-dead code
+                # mentions (known for the family stream) is not covered by it
+                if lbl in called and (live_called is None or lbl in live_called):
                     allow.append([last, nxt])
     v = drv.call(cmd="check-fall", text=ptext, owners=owners, entries=entries, allow=allow)
     stats["checkfall_" + v["verdict"]] = stats.get("checkfall_" + v["verdict"], 0) + 1
@@ -114,48 +116,67 @@ def check_program(drv, chk, name, src, opts, pool, envs, steps, failures, stats,
         if dyn_bad:
             es, d, ill = dyn_bad
             failures.append({"what": f"execution enters a function body without a call: line {ill[0][0]} → {ill[0][1]}, then {d['effects_after_first']} more effects, chip {'stopped' if d['halted'] else 'still running'}; static edges: {desc}",
-                             "name": name, "src": src, "opts": opts, "code": ptext, "owners": owners, "entries": entries, "allow": allow, "env_seed": es, "pool": pool, "steps": steps})
+                             "name": name, "src": src, "opts": opts, "code": ptext, "owners": owners, "entries": entries, "allow": allow, "env_seed": es, "pool": pool, "steps": steps, "live_called": sorted(live_called) if live_called is not None else None})
         else:
             failures.append({"what": f"control-flow edge crosses into another function body without a call (not taken in the runs tried): {desc}", "name": name, "src": src, "opts": opts,
-                             "code": ptext, "owners": owners, "entries": entries, "allow": allow, "static_only": True})
+                             "code": ptext, "owners": owners, "entries": entries, "allow": allow, "static_only": True, "live_called": sorted(live_called) if live_called is not None else None})
 
 
 def family(r):
-    """terminating top-level scripts with functions: live calls, calls in compile-time-dead branches, conditional expressions"""
+    """terminating top-level scripts with functions: live calls, calls in compile-time-dead branches (named constants, also
+    compared with each other), conditional expressions.  → (source, names of the functions some LIVE source-level call reaches)"""
     lines = []
-    flags = {"DEBUG": r.random() < 0.3, "ENABLED": r.random() < 0.7}
-    for k, v in flags.items():
+    level = r.choice([0, 1, 2, 3])
+    consts = {"DEBUG": r.random() < 0.3, "ENABLED": r.random() < 0.7}
+    for k, v in consts.items():
         lines.append(f"{k} = {v}")
+    lines.append(f"LEVEL = {level}")
+    lines.append("LIMIT = 2")
+    # (text, compile-time value)
+    tests = [("DEBUG", consts["DEBUG"]), ("ENABLED", consts["ENABLED"]), ("LEVEL > 2", level > 2), ("LEVEL < LIMIT", level < 2),
+             ("LEVEL == 1", level == 1), ("LIMIT <= LEVEL", 2 <= level), ("not DEBUG", not consts["DEBUG"])]
     nf = r.randrange(1, 4)
+    rets = {}
     for j in range(nf):
         body = r.choice([f"    d{j}.Setting = a + {j}", f"    d{j}.On = a\n    d{j}.Mode = a * 2", f"    if a > {j}:\n        d{j}.Setting = a\n    d{j}.Power = {j}"])
         ret = r.random() < 0.5
         lines += [f"def f{j}(a):", body] + ([f"    return a + {j + 1}"] if ret else []) + [""]
-        flags[f"ret{j}"] = ret
+        rets[j] = ret
     lines.append("x = db.Setting")
+    live = set()
     for j in range(nf):
         k = r.random()
         call = f"f{j}(x + {j})"
-        use = (lambda c: f"db.Power = {c}") if flags[f"ret{j}"] else (lambda c: c)
-        flag = r.choice(["DEBUG", "ENABLED"])
+        use = (lambda c: f"db.Power = {c}") if rets[j] else (lambda c: c)
+        flag, val = r.choice(tests)
         if k < 0.3:
             lines.append(use(call))
+            live.add(f"f{j}")
             if r.random() < 0.6:
                 lines.append(use(f"f{j}(x)"))
         elif k < 0.55:
             lines += [f"if {flag}:", "    " + use(call)]
+            if val and r.random() < 0.5:
+                lines += ["    " + use(f"f{j}(x)")]
+            if val:
+                live.add(f"f{j}")
         elif k < 0.7:
             lines += [f"if {flag}:", "    db.Mode = 1", "else:", "    " + use(call)]
-        elif k < 0.85 and flags[f"ret{j}"]:
+            if not val:
+                live.add(f"f{j}")
+        elif k < 0.85 and rets[j]:
             lines.append(f"y{j} = {call} if {flag} else x")
             lines.append(f"db.Lock = y{j}")
-        elif flags[f"ret{j}"]:
+            live.add(f"f{j}")        # both arms of a conditional expression are evaluated by the emitted code (known finding F-C01-h)
+        elif rets[j]:
             lines.append(f"y{j} = x if {flag} else {call}")
             lines.append(f"db.Lock = y{j}")
+            live.add(f"f{j}")        # (F-C01-h)
         else:
             lines.append(use(call))
+            live.add(f"f{j}")
     lines.append("db.On = 0")
-    return "\n".join(lines) + "\n"
+    return "\n".join(lines) + "\n", live
 
 
 def run(tier: str, seed: int) -> int:
@@ -173,9 +194,9 @@ def run(tier: str, seed: int) -> int:
         for opts in (whole.default_opts(inline_functions=False, append_version=False), whole.default_opts(append_version=False)):
             check_program(drv, chk, name, src, opts, [0.0, 1.0, 2.0, 3.0, 5.0], [1, 2], steps, failures, stats, known_ids)
     for i in range(120 if tier == "quick" else 6000):
-        src = family(r)
+        src, live = family(r)
         opts = whole.default_opts(append_version=False, inline_functions=r.random() < 0.5, use_push_pop_functions=r.random() < 0.3)
-        check_program(drv, chk, f"family:{i}", src, opts, [0.0, 1.0, 2.0, 3.0, 5.0, 10.0], [r.randrange(1 << 30) for _ in range(2)], steps, failures, stats, known_ids)
+        check_program(drv, chk, f"family:{i}", src, opts, [0.0, 1.0, 2.0, 3.0, 5.0, 10.0], [r.randrange(1 << 30) for _ in range(2)], steps, failures, stats, known_ids, live_called=live)
     for kind, n in [("terminating", 80 if tier == "quick" else 4000), ("funcs", 40 if tier == "quick" else 2000)]:
         for i in range(n):
             g, prog, src, pool = whole.gen_program(r, kind)
@@ -202,7 +223,7 @@ def replay(path: str) -> int:
     drv = Driver()
     chk = Check(PROP, "quick", 0, "proof")
     f2, s2 = [], {}
-    check_program(drv, chk, "replay", rp["src"], rp["opts"], rp.get("pool", [0.0, 1.0, 2.0]), [rp.get("env_seed", 1)], rp.get("steps", 3000), f2, s2, {f["id"] for f in chk.known})
+    check_program(drv, chk, "replay", rp["src"], rp["opts"], rp.get("pool", [0.0, 1.0, 2.0]), [rp.get("env_seed", 1)], rp.get("steps", 3000), f2, s2, {f["id"] for f in chk.known}, live_called=(set(rp["live_called"]) if rp.get("live_called") is not None else None))
     drv.close()
     if f2:
         print(f"VIOLATION property=C07 replay={path}\n   {f2[0]['what']}")
